@@ -50,7 +50,9 @@ def gen_case(rng, routine):
         x = np.round(x * 4) / 4
     if routine == 'gni' and io['stop_method'] != 'fixed':
         io['max_iters'] = 1000
-    c = {'kind': routine, 'family': kind, 'x': x, 'imf_opts': io, 'envelope_opts': eo, 'extrema_opts': gens.ext_opts(rng, parabolic=True)}
+    c = {'kind': routine, 'family': kind, 'x': x, 'imf_opts': io, 'envelope_opts': eo, 'extrema_opts': gens.ext_opts(rng)}
+    if rng.random() < .15:
+        c['extrema_opts']['parabolic_extrema'] = True      # (exact comparisons only, see check_gni)
     if routine in ('gni', 'sift') and rng.random() < .12:
         # raw counts: small non-negative integers (the deepest troughs are exactly 0), stored in an unsigned type
         v = np.round((x - x.min()) / max(np.ptp(x), 1e-12) * float(gens.pick(rng, [5, 8, 40, 200])))
